@@ -450,6 +450,7 @@ B("b29", ["C01"], VI,
                 lambda eps, gamma: eps * (1 - gamma) / gamma if gamma != 1 else eps,''',
   '''                "span",
                 lambda eps, gamma: eps * (1 - gamma) / (2 * gamma) if gamma != 1 else eps / 2,''', "stricter threshold (half): bound still holds, C08 reports it")
+BENIGN[-1]["not_benign_for"] = ["C08"]
 M("m22", "C04", "R4.1", RVI, "        new_values = new_values - self.gain\n", "", "RVI: gain never subtracted (policy test still passes)")
 M("m23", "C04", "R4.1", RVI, "        new_values = new_values - self.gain\n", "        new_values = new_values + self.gain\n", "RVI: gain added")
 M("m24", "C04", "R4.2", RVI, "        self.gain = new_values[-1]\n", "", "RVI: gain never updated")
